@@ -86,3 +86,22 @@ Proof. exact pubkey_roundtrip. Qed.
 Print Assumptions C11_public_key_roundtrip.
 Example C11_nonvacuous_pubkey : wf_pubkey {| pk_name := [65; 108]%N; pk_email := [97; 64; 98]%N; pk_type := [84]%N; pk_m := 35%Z; pk_y := 6%Z; pk_nizk := [110; 94]%N; pk_sig := [115; 124; 94]%N |}.
 Proof. unfold wf_pubkey, nobar. cbn. repeat split; repeat constructor; discriminate. Qed.
+
+(* distinct objects within the limits never share a text: export is injective for every modelled type *)
+Theorem C11_export_injective :
+  (forall a b : Z, encode62 a = encode62 b -> a = b) /\
+  (forall a b, wf_tcard a -> wf_tcard b -> export_tcard a = export_tcard b -> a = b) /\
+  (forall a b, wf_tsecret a -> wf_tsecret b -> export_tsecret a = export_tsecret b -> a = b) /\
+  (forall a b, wf_vstacksecret a -> wf_vstacksecret b -> export_vstacksecret a = export_vstacksecret b -> a = b) /\
+  (forall a b, wf_tstacksecret a -> wf_tstacksecret b -> export_tstacksecret a = export_tstacksecret b -> a = b) /\
+  (forall a b, wf_pubkey a -> wf_pubkey b -> export_pubkey a = export_pubkey b -> a = b).
+Proof.
+  repeat split.
+  - intros a b E. apply (roundtrip_injective (fun _ => True) encode62 decode62 (fun x _ => base62_roundtrip x) a b I I E).
+  - exact (roundtrip_injective _ _ _ tcard_roundtrip).
+  - exact (roundtrip_injective _ _ _ tsecret_roundtrip).
+  - exact (roundtrip_injective _ _ _ vstacksecret_roundtrip).
+  - exact (roundtrip_injective _ _ _ tstacksecret_roundtrip).
+  - exact (roundtrip_injective _ _ _ pubkey_roundtrip).
+Qed.
+Print Assumptions C11_export_injective.
